@@ -206,7 +206,7 @@ pub fn record(output: &str) {
     quiet_panics();
     let mut out = Out::create(output);
     let mut r = rng(1717);
-    let n = if thorough() { 20_000 } else { 2_000 };
+    let n = if thorough() { 20_000 } else { 4_000 };
     let nano = |x: f64| -> i64 { if x.is_finite() { (x * 1e9).round().min(2e9) as i64 } else { 2_000_000_000 } };
     let mut last_q: Joints = [0.0; 6];
     for k in 0..n {
